@@ -148,6 +148,7 @@ func init() {
 			{Name: "prefixes", Run: prefixUnit("bed", false, 0)},
 			{Name: "edges", Run: edgeUnit("bed")},
 			{Name: "lexicon", TShards: 4, Run: lexiconUnit("bed")},
+			{Name: "mixedsizes", QShards: 4, TShards: 8, Run: mixedSizesUnit("bed")},
 			{Name: "fieldlens", TShards: 2, Run: lengthUnit("bed")},
 			{Name: "parallel", Race: true, Run: codecParallel("bed")},
 			{Name: "histories", Run: codecHistories("bed")},
